@@ -103,3 +103,8 @@ pub fn difficulty_value(current_strain_peaks: StrainsVec, decay_weight: f64) -> 
 pub fn strain_decay(ms: f64, strain_decay_base: f64) -> f64 {
     f64::powf(strain_decay_base, ms / 1000.0)
 }
+
+// Verification hook (compiled only by `cargo kani`, which sets `--cfg kani`).
+#[cfg(kani)]
+#[path = "/verif/harness/any_skills.rs"]
+pub(crate) mod verif_harness;
